@@ -48,9 +48,41 @@ def scenarios(ctx):
                                                    "gap": None, "tight": x, "copies": rng.randint(1, 2)})
         if rng.random() < 0.2:
             w["two_bams"] = True
+        if rng.random() < 0.1:
+            w, o = bridge_world(rng), {"tag": rng.choice(["PS", "HP"]), "max_coverage": rng.choice([1, 1, 2])}
         w["opts"] = o
+        if rng.random() < 0.3:
+            PW.add_decoys(rng, w)          # unusable alignments with arbitrary alleles, non-default --mapping-quality
+        if rng.random() < 0.3:
+            w["stale_phase"] = rng.choice(["PS", "HP"])    # the input VCF already carries unrelated phase statements
+        if rng.random() < 0.3:
+            w["gt_desc"] = True                            # unphased heterozygous genotypes written 1/0
+        if ns == 1 and rng.random() < 0.15:
+            o["ignore_rg"] = True          # --ignore-read-groups: read groups absent or naming somebody else
         scs.append({"world": w})
     return scs
+
+
+def bridge_world(rng):
+    """Two groups of heterozygous SNVs, each covered far above the coverage cap by reads that stay inside the group, and
+    one or two gapped fragments (mates in different groups) as the ONLY link between the groups: read selection often has
+    to drop the link, and then the groups must not share a phase set."""
+    nl, nr = rng.randint(3, 4), rng.randint(3, 4)
+    n = nl + nr
+    truth = [rng.choice([[0, 1], [1, 0]]) for _ in range(n)]
+    reads = []
+    for lo, hi in ((0, nl - 1), (nl, n - 1)):
+        for hap in (0, 1):
+            for _ in range(rng.randint(2, 4)):
+                a = rng.randint(lo, hi - 1) if rng.random() < 0.3 else lo
+                reads.append({"sample": "s1", "chrom": 0, "hap": hap, "first": a, "last": hi, "gap": None, "copies": rng.randint(2, 4)})
+    for _ in range(rng.randint(1, 2)):
+        a, b = rng.randint(0, nl - 1), rng.randint(nl, n - 1)
+        # the link covers one site per group (poor selection score: many uncovered sites inside its insert)
+        reads.append({"sample": "s1", "chrom": 0, "hap": rng.randint(0, 1), "first": a, "last": b, "gap": [a, b], "copies": 1})
+    rng.shuffle(reads)
+    return {"seed": rng.randrange(10 ** 6), "chroms": [{"name": "chr1", "sites": [{"kind": "snv", "len": 1} for _ in range(n)]}],
+            "samples": ["s1"], "truth": {"s1": [truth]}, "reads": reads, "errfree": True, "ped": []}
 
 
 def nontrivial(sc, events):
